@@ -17,7 +17,11 @@ own_payloads(cls, rng, n_random)  own-length payloads: exhaustive if <= 65536 po
                                   accepted backgrounds, plus n_random random arrays
 payloads_for(cls, rng, tier)      the hostile space of C07 (every payload kind and length)
 decode_image(cls, rng, n)         list of (payload, value) the type accepts (complete when the own
-                                  space has <= max(n, 65536) points, else at most n, structured + random)
+                                  space has <= 65536 points, else at most n, structured + random)
+class_by_name(name)               concrete class by __name__ (replays)
+behaviour_signature(cls)          everything that makes two classes transcode differently
+representatives(classes)          first class of every behaviour signature
+same_value(a, b)                  value equality for decoded DPT values (NaN == NaN, dataclasses field-wise)
 """
 
 from __future__ import annotations
@@ -184,7 +188,7 @@ def payloads_for(cls: type[DPTBase], rng: Any, tier: str = "quick") -> Iterator[
         yield DPTArray((0xFF,) * length)
         yield DPTArray(tuple(rng.randrange(256) for _ in range(length)))
     if own_len is not None and own_len >= 3:
-        yield from own_payloads(cls, rng, 3000 if quick else 20000)
+        yield from own_payloads(cls, rng, 3000 if quick else 100000)
 
 
 def decode_image(cls: type[DPTBase], rng: Any, n: int = 2000) -> list[tuple[DPTArray | DPTBinary, Any]]:
